@@ -269,9 +269,9 @@ def run(ck):
             ok = 'argument_types' in pp(z['recv']) and not any(m in LF.FILTERS | {'rev'} for m in chain) and re.search(r'locals\[\s*(\.\.|RangeTo)', rng.replace(' ', '')) is not None and 'parameter_count' in rng
         ck.ob('R13.5', 'verified-against-leading-arguments', ok, L.loc(z) if z else L.loc(vc['body']), 'desc.argument_types().iter().zip(&code.locals[..code.parameter_count]): both from index 0')
     import rules.c05 as c05
-    s5 = core.Shared(ck, 'R13.5', lambda r, k: r == 'R5.6' and k.startswith('callback-parameter'), 'C05:')
+    s5 = core.Shared(ck, 'R13.5', lambda r, k: (r == 'R5.6' and k.startswith('callback-parameter')) or (r == 'R5.1' and k.startswith('is_concrete_assignable|')), 'C05:')
     c05.run(s5)
-    ck.floor('R13.5', s5.count, 2, 'shared C05 R5.6 callback-parameter obligations')
+    ck.floor('R13.5', s5.count, 2 + 256, 'shared C05 obligations: callback-parameter rules and the is_concrete_assignable table the parameter test applies')
     ccb = next((f for f in L.fn_list if f['path'].endswith('uigen::binding::CxxCallback::build')), None)
     if ccb is None:
         ck.floor('R13.6', 0, 1, 'fn CxxCallback::build')
